@@ -67,3 +67,5 @@ func (p *PPU) VerifPaletteInv() bool {
 	}
 	return true
 }
+
+func (p *PPU) VerifTicks() int { return p.ticks }
